@@ -9,5 +9,7 @@ Proof. unfold nonnegR.
     unfold d2; intros; cbn [fst snd]; try reflexivity; try (unfold Rdiv; ring).
   - exact Rfield.
   - apply sqrt_sqrt. nra.
+  - match goal with H : sqrt _ = 0 |- _ => apply sqrt_eq_0 in H; [|nra] end.
+    assert (fst v = 0 /\ snd v = 0) as [E1 E2] by (split; nra). rewrite E1, E2. ring.
   - apply sqrt_pos.
 Qed.
